@@ -84,6 +84,12 @@ func (f *opFeatures) scanOp(op *Op) {
 	if op.W != nil && op.W.Kind == "panic" {
 		f.escapes = true
 	}
+	if op.In != nil {
+		f.scanOp(op.In)
+	}
+	if op.PT != nil && !op.PT.NilRcv {
+		f.panics = true
+	}
 	if strings.Contains(string(op.F), "%!") || strings.Contains(string(op.F), "%w") || strings.Contains(string(op.F), "%z") {
 		f.badverb = true
 	}
